@@ -15,9 +15,16 @@ def run(ctx):
                 'object per encoding, position after each = end of that encoding; non-trivial = non-empty tail or n > 1')
     search_only = getattr(ctx, 'search_only', False)
     cases = codec.gen_cases(ctx, ctx.n(100, 2000), depth=3)
+    # systematic: every base kind (every string and time type, every container kind) under every tagging shape of depth
+    # 0..2, each in the indefinite modes (where an end-of-octets marker must follow exactly the indefinite headers)
+    grid = codec.tag_grid_cases(ctx, every=2 if ctx.tier == 'quick' else 1)
+    forced = {}
+    for j, c in enumerate(grid):
+        forced[id(c)] = [('CER', True, 0), ('BER', False, 0), ('BER', False, 3)][(j + ctx.seed) % 3]
+    cases += grid
     exprs, meta = [], []
     for c in cases:
-        mode = ctx.rng.choice([('BER', True, 0), ('BER', False, 0), ('BER', False, 3), ('BER', True, 2), ('CER', True, 0), ('DER', True, 0)])
+        mode = forced.get(id(c)) or ctx.rng.choice([('BER', True, 0), ('BER', False, 0), ('BER', False, 3), ('BER', True, 2), ('CER', True, 0), ('DER', True, 0)])
         cdc, defm, chunk = mode
         e = I.run_encode('BER', c.obj, defMode=defm, maxChunkSize=chunk) if cdc == 'BER' else I.run_encode(cdc, c.obj)
         if e[0] != 'ok':
@@ -26,7 +33,8 @@ def run(ctx):
         fid = codec.classify_roundtrip(c.T, c.v, cdc, (cdc == 'CER') or not defm)
         if base[0] != 'ok' or base[2] or not U.aval_eq(U.absval_top(base[1], c.T), c.want):
             ctx.stats['not_a_valid_roundtrip:%s' % (fid or 'unexplained')] += 1
-            if fid == 'F01':
+            if fid == 'F01' or (base[0] == 'ok' and base[2] and U.aval_eq(U.absval_top(base[1], c.T), c.want)):
+                # the value comes back but octets of the encoder's own output are left over: framing, not content
                 ctx.prop_fail('decoding an encoding produced by the encoder does not consume exactly that encoding',
                               {'codec': cdc, 'T': c.T, 'v': c.v, 'bytes': e[1].hex()}, finding=fid)
             continue          # round-trip failures as such belong to C01/C02
